@@ -1,6 +1,14 @@
 import re
+import sys
 from . import tokens
 from hidc.errors import LexerError
+
+
+# Integer literals (and so the immediates emitted for them) can be
+# arbitrarily long, but CPython 3.11+ refuses int <-> str conversions of
+# more than 4300 digits unless told otherwise.
+if hasattr(sys, 'set_int_max_str_digits'):
+    sys.set_int_max_str_digits(0)
 
 
 ignore = re.compile(r'\s*//.*|\s+')
